@@ -74,6 +74,8 @@ pub struct Ctx<'a> {
     pub value_depth: usize,
     pub prelude: Vec<String>,
     pub mut_self: bool,
+    pub full_ret_lean: Option<String>,
+    pub out_params: Vec<String>, // rust names of `&mut` params (incl. "self") returned alongside the result
 }
 
 #[derive(Clone)]
@@ -121,6 +123,14 @@ impl<'a> Ctx<'a> {
     pub fn pop(&mut self) {
         self.scopes.pop();
     }
+    /// `(v, self, p1, …)` when the function has `&mut` parameters
+    pub fn with_outs(&self, v: &str) -> String {
+        if self.out_params.is_empty() {
+            return v.to_string();
+        }
+        let outs: Vec<String> = self.out_params.iter().map(|n| if n == "self" { "self".to_string() } else { self.lookup(n).map(|x| x.0).unwrap_or(n.clone()) }).collect();
+        format!("({}, {})", v, outs.join(", "))
+    }
     pub fn take_prelude(&mut self) -> String {
         let p: String = self.prelude.drain(..).collect();
         p
@@ -164,6 +174,14 @@ impl<'a> Ctx<'a> {
             Ty::Tuple(v) => {
                 let parts: R<Vec<String>> = v.iter().map(|x| self.lean_ty(x)).collect();
                 format!("({})", parts?.join(" × "))
+            }
+            Ty::Fn(ins, out) => {
+                let mut parts: Vec<String> = vec![];
+                for i in ins {
+                    parts.push(self.lean_ty(i)?);
+                }
+                parts.push(self.lean_ty(out)?);
+                format!("({})", parts.join(" → "))
             }
             Ty::F32 => return Err("f32".into()),
             Ty::Str => return Err("string type".into()),
